@@ -80,7 +80,7 @@ RangesNest ==
   \A i \in 1..Len(spans), j \in 1..Len(spans) :
      (i # j /\ IsPrefixPath(spans[i][1], spans[j][1])) => (spans[i][3] <= spans[j][3] /\ spans[j][4] <= spans[i][4])
 SubtextReparses ==
-  \A i \in 1..Len(spans) :
+  \A i \in {j \in 1..Len(spans) : spans[j][2] # "Name"} :
      LET sub == [j \in 1..(spans[i][4] - spans[i][3] + 1) |-> <<s[spans[i][3] + j - 1][1], s[spans[i][3] + j - 1][2], FALSE>>] IN
      ParseTokens(sub) = <<"OK", SubAt(e[2], spans[i][1])>>
 =============================================================================
